@@ -39,12 +39,12 @@ type V struct {
 }
 
 type Seq struct {
-	Cond       string            // for ite(cond, Then, Else)
+	Cond       string // for ite(cond, Then, Else)
 	Then, Else *Seq
-	Parts []*Seq                 // for concatenations: the operands (obligations are split per part)
-	Max  int                     // static upper bound of the length (0 = unknown)
-	Len  string                  // BV64 term
-	Byte func(idx string) string // BV8 term for a BV64 index term
+	Parts      []*Seq                  // for concatenations: the operands (obligations are split per part)
+	Max        int                     // static upper bound of the length (0 = unknown)
+	Len        string                  // BV64 term
+	Byte       func(idx string) string // BV8 term for a BV64 index term
 }
 
 func vBool(t string) V              { return V{K: KBool, T: t} }
